@@ -80,6 +80,19 @@ CLAIMED["C13"] = dict(engine="yast",
          "are appended in the order augment_methods numbers them. Does not decide that in-place decoding never overtakes unread input (headroom depends "
          "on run-time sizes) nor that the emitted text compiles for every registry. One recorded finding (class with an empty v-table).",
     design_ref="DESIGN.md section 4, C13")
+CLAIMED["C03"] = dict(engine="yast",
+    technique="AST decision tables by path enumeration over a finite abstract domain; CFG control dependence",
+    text="Decides necessary structural conditions: is_base is the documented per-position table over {equal, base, derived, unrelated}; the value "
+         "stored through a definition's next is the sole best candidate's function, the not-implemented handler when there is none and the ambiguity "
+         "handler when there are several; candidates are exactly is_base(other, this); the store is control dependent only on the two loops and the "
+         "pointer's own null test, so every update recomputes it for every definition. Does not decide that best() picks the right elements for every lattice.",
+    design_ref="DESIGN.md section 4, C03")
+CLAIMED["C17"] = dict(engine="yast",
+    technique="AST decision tables with symbolic guards; sibling-guard comparison; field pairing",
+    text="Decides the counting structure: for a best set of size 0 / 1 / 2+ exactly the matching counters are incremented next to the matching cell, "
+         "the two concrete_* counters carry the same guard (concreteness of the outer dimensions and of the current group), accumulate adds each "
+         "per-method counter to the field of the same name. Does not decide that the cells enumerate real class tuples (run-time grouping).",
+    design_ref="DESIGN.md section 4, C17")
 NA = {
 }
 DEFAULT_NA = "check not built yet (see DESIGN.md section 4 for the planned clause)"
